@@ -152,6 +152,10 @@ func (ds *dataStore) load(fileName string) (err error) {
 		if flagHasOne(pkh.Flags, FLAG_KEY_TYPE_STRING) {
 			var str []byte
 			err = dec.Decode(&str)
+			if str == nil {
+				// gob does not tell an empty slice from nil; an empty string value is not nil
+				str = []byte{}
+			}
 			payload = str
 		} else if flagHasOne(pkh.Flags, FLAG_KEY_TYPE_HASH_TABLE) {
 			var table map[string]string
